@@ -114,6 +114,29 @@ func TestVerifCtrlOKey(t *testing.T) {
 			done := make(chan struct{})
 			go func() { s.Do(ctx); close(done) }()
 			time.Sleep(20 * time.Millisecond)
+			if "lockwin2" == c.Mode {
+				/* A status line is being written (write lock held) at the instant the two seconds of calm are up; no shell output at all.
+				When the write is over the mute must end (announced), and later output must be shown. */
+				t0 := time.Now()
+				s.t.ControlCharacterCallback(0x0F)
+				time.Sleep(1900*time.Millisecond - time.Since(t0))
+				s.wL.Lock()
+				time.Sleep(2150*time.Millisecond - time.Since(t0))
+				s.wL.Unlock()
+				time.Sleep(3000*time.Millisecond - time.Since(t0))
+				res["unmuted_at_3000"] = seen("Unmuting")
+				och <- CLine{Plain: true, Line: "<CHUNK-AFTER>\n"}
+				time.Sleep(200 * time.Millisecond)
+				res["chunk_shown"] = seen("<CHUNK-AFTER>")
+				cancel()
+				pw.Close()
+				select {
+				case <-done:
+				case <-time.After(1500 * time.Millisecond):
+				}
+				s.silenceTimer.Stop()
+				return
+			}
 			if "lockwin" == c.Mode {
 				/* The write lock is held across the moment the silence timer is due (a long write to a slow terminal),
 				a chunk of shell output is waiting for the lock before the timer fires, the timer's callback behind it.
